@@ -35,7 +35,9 @@ BOOL_KEYS = ('space_array', 'kwargs_force_multiline', 'wide_colon', 'no_single_c
 CONFIG_SPACE: T.Dict[str, T.Tuple[T.Any, ...]] = {
     **{k: ((True, False) if k in ('simplify_string_literals', 'insert_final_newline') else (False, True)) for k in BOOL_KEYS},
     'max_line_length': (80, 20, 0, 1000, 40),
-    'indent_by': ('    ', '  ', '\t', ' ', '        '),
+    # '' is legal too ("no indentation"): every `value[:-len(indent_by)]` / `endswith(indent_by)` of the formatter then
+    # meets the empty string
+    'indent_by': ('    ', '  ', '\t', ' ', '        ', ''),
     'indent_before_comments': ('  ', ' ', '', '\t'),
     'tab_width': (4, 8, 1, 2),
     'end_of_line': ('native', 'lf', 'crlf', 'cr'),
